@@ -48,9 +48,7 @@ Print Assumptions C07_expected_cached_verifies.
 (** ** The Go algorithm (mirror Model/ProofUpdate.v of the Go method Proof.Update, compared with the code on
     every call) computes the expected cached proof: proved for every ADDITION-ONLY block - any forest
     (dead slots, empty roots written over, row growth), any cached set, any remember pattern
-    (Proofs/ProofUpdateSpec.v).  For blocks with deletions the same statement is checked by
-    computation there ([pu_g0_exhaustive_4]: all 19,375 cases on 4 slots, [pu_g0_large]) and by the
-    correspondence run; its proof is open. *)
+    (Proofs/ProofUpdateSpec.v).  Blocks with deletions: next theorem. *)
 From Utreexo Require Import Model.ProofUpdate Proofs.StumpDelData Proofs.ProofUpdateSpec.
 From Coq Require Import Sorted.
 
@@ -70,6 +68,35 @@ Theorem C07_update_addition_blocks :
   exp_cached HO (mk_ctx HO (apply_block HO s [] adds)) (C ++ pick adds rem) <> None.
 Proof. exact proof_update_add_only. Qed.
 Print Assumptions C07_update_addition_blocks.
+
+(** ... and for blocks WITH deletions followed by any additions, when the deletions are "regular":
+    any number of deleted leaves (cached or not) such that no inner node of the forest loses all its
+    leaves (no two sibling leaves / no whole subtree or tree deleted together).  Surviving sibling
+    subtrees - with the cached leaves and proof positions inside them - may move up several rows
+    (Proofs/ProofUpdateDel.v).  Blocks that delete whole subtrees: decided by computation below and
+    by the correspondence run; proof open. *)
+From Utreexo Require Import Proofs.AbstractModels Proofs.RefTheory Proofs.StumpAdd Proofs.ProofUpdateDel.
+
+Theorem C07_update_regular_deletion_blocks :
+  forall (H : Type) (HO : ops H), ops_ok HO ->
+  (forall a b, NZ HO (op_hash2 HO a b)) ->
+  forall (s : slots H) (hs adds C : list H) (rem : list N),
+  (forall h, In (Some h) s -> NZ HO h) ->
+  N.of_nat (length s + length adds) <= 2 ^ 63 ->
+  NoDup (live s) -> NoDup hs ->
+  (forall (e : StumpAdd.entry H) (ce : ctree H), In e (forest HO s) -> snd e = Some ce ->
+     regular H HO hs ce /\ RefTheory.prune HO hs ce <> None) ->
+  NoDup (live (kill HO hs s ++ map Some adds)) ->
+  NoDup C -> StronglySorted N.lt rem ->
+  (forall x, In x (layout HO (kill HO hs s ++ map Some adds)) -> nleaf x = false -> ~ In (nhash x) (pick adds rem)) ->
+  forall hC tC pC bt pfd,
+    exp_cached HO (mk_ctx HO s) C = Some (hC, tC, pC) ->
+    exp_prove HO (mk_ctx HO s) hs = Some (bt, pfd) ->
+    proof_update HO tC pC hC adds bt rem (ud_of_spec (spec_update_data HO s hs adds))
+    = exp_cached HO (mk_ctx HO (apply_block HO s hs adds)) (cached_after HO C hs (pick adds rem)) /\
+    exp_cached HO (mk_ctx HO (apply_block HO s hs adds)) (cached_after HO C hs (pick adds rem)) <> None.
+Proof. exact @proof_update_regular_deletions. Qed.
+Print Assumptions C07_update_regular_deletion_blocks.
 
 (** the full statement (blocks with deletions), decided by computation on every state of 4 slots *)
 Theorem C07_update_all_blocks_4_slots : pu_failures 4 4 = [].
